@@ -2,6 +2,8 @@ package node
 
 import (
 	"fmt"
+	"math"
+	"math/big"
 
 	"github.com/freeconf/yang/meta"
 	"github.com/freeconf/yang/val"
@@ -117,6 +119,11 @@ func (xp xpathImpl) resolveOperator(oper *xpath.Operator, ident string, s *Selec
 	}
 	b, err := NewValue(m.(meta.HasType).Type(), oper.Lhs)
 	if err != nil {
+		if lit, isNumber := numberAsRat(oper.Lhs); isNumber && m.(meta.HasType).Type().Format().IsNumeric() {
+			// a number that is not a value of the leaf's type, 2.5 for an int32 say, still
+			// compares with the values of the leaf
+			return xp.compareWithNumber(oper.Oper, ident, lit, s)
+		}
 		return false, err
 	}
 	s, err = s.Find(ident)
@@ -150,6 +157,56 @@ func (xp xpathImpl) resolveOperator(oper *xpath.Operator, ident string, s *Selec
 		}
 	}
 	panic("unrecognized operator: " + oper.Oper)
+}
+
+func numberAsRat(x interface{}) (*big.Rat, bool) {
+	switch n := x.(type) {
+	case int64:
+		return new(big.Rat).SetInt64(n), true
+	case uint64:
+		return new(big.Rat).SetUint64(n), true
+	case int:
+		return new(big.Rat).SetInt64(int64(n)), true
+	case float64:
+		if math.IsNaN(n) || math.IsInf(n, 0) {
+			return nil, false
+		}
+		return new(big.Rat).SetFloat64(n), true
+	}
+	return nil, false
+}
+
+func (xp xpathImpl) compareWithNumber(oper string, ident string, lit *big.Rat, s *Selection) (bool, error) {
+	s, err := s.Find(ident)
+	if err != nil {
+		return false, err
+	}
+	a, err := s.Get()
+	if err != nil || a == nil {
+		return false, err
+	}
+	leaf, isNumber := numberAsRat(a.Value())
+	if !isNumber {
+		if leaf, isNumber = new(big.Rat).SetString(a.String()); !isNumber {
+			return false, fmt.Errorf("'%s' is not a number in xpath", ident)
+		}
+	}
+	c := leaf.Cmp(lit)
+	switch oper {
+	case "=":
+		return c == 0, nil
+	case "!=":
+		return c != 0, nil
+	case "<":
+		return c < 0, nil
+	case ">":
+		return c > 0, nil
+	case ">=":
+		return c >= 0, nil
+	case "<=":
+		return c <= 0, nil
+	}
+	panic("unrecognized operator: " + oper)
 }
 
 func (xp xpathImpl) resolveAbsolutePath(s *Selection) (*Selection, error) {
